@@ -62,6 +62,10 @@ C02(r) ==
   IF r.err # "" THEN [no_exception |-> FALSE] ELSE
   [ no_exception  |-> TRUE,
     in_domain     |-> \A k \in Idx(r) : WellFormed(Rows(r.parsed[k])),
+    \* the rows whose links are judged still carry the file's correlation id, stream and name (C01's business, needed here to tell a
+    \* wrong parser from an input outside the domain)
+    input_faithful |-> \A k \in Idx(r) : \A x \in Rows(r.parsed[k]) :
+                          \E e \in Entries(r, k) : e.id = x.id /\ e.corr = x.corr /\ e.stream = x.stream /\ e.name = x.name,
     link_parsed   |-> \A k \in Idx(r) : LinksOK(Rows(r.parsed[k])),
     link_loaded   |-> \A k \in Idx(r) : LinksOK(Rows(r.loaded[k])),
     mutual        |-> \A k \in Idx(r) : MutualOK(Rows(r.parsed[k])) /\ MutualOK(Rows(r.loaded[k])),
